@@ -2194,6 +2194,163 @@ X7_WRAP = {"Metadata.from_raw": _x7_wrap_from, "Metadata.from_email": _x7_wrap_f
 # ------------------------------------------------------------------------------------------------ x7 end
 
 
+# ------------------------------------------------------------------------------------------------ x9: ninth round
+# ---- x9: the methods of the tokenizer (C07, C08, C09): the receiver travels like the tokenizer of the parser functions and comes
+# back with the result (STATE_FUNCS)
+_X9_RULE_EXTRA = ["NOPE", "", "ws", None, 3]
+
+
+def _x9_rule_names():
+    from packaging import _tokenizer as TK
+    return list(TK.DEFAULT_RULES)
+
+
+def _x9_tok(rng, loaded=False):
+    """a tokenizer some tokens into a marker / requirement text (or at a random offset); `loaded`: with a token checked but not read"""
+    from packaging import _tokenizer as TK
+    text, _ = _parser_text(rng)
+    t = TK.Tokenizer(text, rules=TK.DEFAULT_RULES)
+    names = _x9_rule_names()
+    if rng.random() < 0.2:
+        t.position = rng.randrange(len(text) + 1)
+    else:
+        for _ in range(rng.randrange(0, 9)):
+            order = rng.sample(names, len(names))
+            hit = next((n for n in order if n != "END" and t.check(n, peek=True)), None)
+            if hit is None:
+                break
+            t.check(hit)
+            t.read()
+    if loaded:
+        order = rng.sample(names, len(names))
+        hit = next((n for n in order if t.check(n, peek=True)), None)
+        if hit is not None:
+            t.check(hit)
+    return t
+
+
+def _x9_name(rng, t):
+    """a rule name: one that matches at the position of `t` half of the time"""
+    names = _x9_rule_names()
+    if rng.random() < 0.5 and t.next_token is None:
+        order = rng.sample(names, len(names))
+        hit = next((n for n in order if t.check(n, peek=True)), None)
+        if hit is not None:
+            return hit
+    if rng.random() < 0.08:
+        return rng.choice(_X9_RULE_EXTRA)
+    return rng.choice(names)
+
+
+def _g_tok_check(rng):
+    t = _x9_tok(rng, loaded=rng.random() < 0.12)
+    return [t, _x9_name(rng, t), rng.choice([False, False, True])]
+
+
+def _g_tok_read(rng):
+    return [_x9_tok(rng, loaded=rng.random() < 0.85)]
+
+
+def _g_tok_expect(rng):
+    t = _x9_tok(rng, loaded=rng.random() < 0.06)
+    return [t, _x9_name(rng, t), rng.choice(["a name", "comma", ""])]
+
+
+def _g_tok_consume(rng):
+    t = _x9_tok(rng, loaded=rng.random() < 0.06)
+    return [t, _x9_name(rng, t)]
+
+
+def _g_tok_raise(rng):
+    t = _x9_tok(rng, loaded=rng.random() < 0.2)
+    return [t, rng.choice(["Expected x", ""]), rng.choice([None, None, 0, 3]), rng.choice([None, None, 5])]
+
+
+def _x9_pair(rng, t):
+    r = rng.random()
+    if r < 0.7:
+        return rng.choice([("LEFT_PARENTHESIS", "RIGHT_PARENTHESIS"), ("LEFT_BRACKET", "RIGHT_BRACKET")])
+    return (_x9_name(rng, t), _x9_name(rng, t))
+
+
+def _g_tok_enter(rng):
+    t = _x9_tok(rng, loaded=rng.random() < 0.05)
+    o, c = _x9_pair(rng, t)
+    return [t, o, c, rng.choice(["name", "marker expression"])]
+
+
+def _g_tok_with(rng):
+    from packaging import _tokenizer as TK
+    if rng.random() < 0.6:                                   # an opening token, something inside, (maybe) the closing one
+        o, c, oc, cc = rng.choice([("LEFT_PARENTHESIS", "RIGHT_PARENTHESIS", "(", ")"), ("LEFT_BRACKET", "RIGHT_BRACKET", "[", "]")])
+        inner, body = rng.choice([("abc", "IDENTIFIER"), ("  ", "WS"), ("", "WS"), ("os_name", "VARIABLE"), ("'x'", "QUOTED_STRING"), ("x", "WS")])
+        text = rng.choice(["", "  ", "name"]) + oc + inner + rng.choice([cc, cc, "", " " + cc, "]"]) + rng.choice(["", " tail"])
+        t = TK.Tokenizer(text, rules=TK.DEFAULT_RULES)
+        t.position = text.index(oc) if rng.random() < 0.85 else rng.randrange(len(text) + 1)
+        return [t, o, c, "x", body]
+    t = _x9_tok(rng, loaded=rng.random() < 0.05)
+    o, c = _x9_pair(rng, t)
+    return [t, o, c, "x", _x9_name(rng, t)]
+
+
+def _x9_live_locals():
+    """the locals of `Tokenizer.enclosing_tokens` that live across its `yield`, as the translator computes them"""
+    import ast as _ast
+    import inspect as _inspect
+    import textwrap as _tw
+    from packaging import _tokenizer as TK
+    from translators import pysrc as _PS
+    f = _inspect.unwrap(TK.Tokenizer.enclosing_tokens)
+    node = _ast.parse(_tw.dedent(_inspect.getsource(f))).body[0]
+    n0 = len(node.args.args)
+    ex, _ = _PS._x9_split_generator(node, "exit")
+    return [a.arg for a in ex.args.args[1:1 + len(ex.args.args) - n0]]
+
+
+def _x9_wrap_enter(f):
+    def w(tok, open_token, close_token, around):
+        cm = f(tok, open_token, close_token, around=around)
+        cm.__enter__()
+        live = _x9_live_locals()
+        loc = cm.gen.gi_frame.f_locals
+        return loc[live[0]] if len(live) == 1 else tuple(loc[v] for v in live)
+    return w
+
+
+def _x9_wrap_with(f):
+    def w(tok, open_token, close_token, around, body):
+        with f(tok, open_token, close_token, around=around):
+            tok.consume(body)
+        return None
+    return w
+
+
+_TKM = "packaging._tokenizer"
+FUNCS.update({
+    "Tokenizer.check": (_TKM, "Tokenizer.check", _g_tok_check),
+    "Tokenizer.read": (_TKM, "Tokenizer.read", _g_tok_read),
+    "Tokenizer.expect": (_TKM, "Tokenizer.expect", _g_tok_expect),
+    "Tokenizer.consume": (_TKM, "Tokenizer.consume", _g_tok_consume),
+    "Tokenizer.raise_syntax_error": (_TKM, "Tokenizer.raise_syntax_error", _g_tok_raise),
+    "Tokenizer.enclosing_tokens__enter": (_TKM, "Tokenizer.enclosing_tokens", _g_tok_enter),
+    "Tokenizer.enclosing_tokens__with": (_TKM, "Tokenizer.enclosing_tokens", _g_tok_with),
+})
+X9_TOK_FUNCS = ["Tokenizer.check", "Tokenizer.read", "Tokenizer.expect", "Tokenizer.consume", "Tokenizer.raise_syntax_error",
+                "Tokenizer.enclosing_tokens__enter", "Tokenizer.enclosing_tokens__with"]
+STATE_FUNCS |= set(X9_TOK_FUNCS)
+X7_WRAP.update({"Tokenizer.enclosing_tokens__enter": _x9_wrap_enter, "Tokenizer.enclosing_tokens__with": _x9_wrap_with})
+X9_TOK_THEOREMS = ["Src.Tokenizer.check_translated", "Src.Tokenizer.check_eq_model",
+                   "Src.Tokenizer.read_translated", "Src.Tokenizer.read_eq_model",
+                   "Src.Tokenizer.expect_translated", "Src.Tokenizer.expect_eq_model",
+                   "Src.Tokenizer.consume_translated", "Src.Tokenizer.consume_eq_model",
+                   "Src.Tokenizer.raise_syntax_error_translated", "Src.Tokenizer.raise_syntax_error_eq_model",
+                   "Src.Tokenizer.enclosing_tokens__enter_translated", "Src.Tokenizer.enclosing_tokens__enter_eq_model",
+                   "Src.Tokenizer.enclosing_tokens__exit_translated", "Src.Tokenizer.enclosing_tokens__exit_eq_model",
+                   "Src.Tokenizer.wf_new", "Src.Tokenizer.wf_preserved"]
+X9_TOK_MODULE = "PkgProofs.Props.Src.Tokenizer"
+# ------------------------------------------------------------------------------------------------ x9 end
+
+
 class _Src:
     def cases(self, rng, n, names):
         """n `src.call` cases spread over the named functions"""
